@@ -27,6 +27,34 @@ prop("C12", "exploration",
            required_classes=["equal-priority-contention", "multi-priority"])],
      ["file ages are hours away from the last-file delay, so the wall clock read by queue.Pop cannot change a verdict"])
 
+prop("C11", "exploration",
+     "(a) queue level: generated Push/Pop histories with chunk sizes 1-9, file sizes 1-24 and resumed files with 1-4 "
+     "missing ranges: every chunk popped continues the file's allocation, is non-empty, <= chunk size and inside the ranges to "
+     "send; (b) payload level: generated files (1-60 B), chunk 1-40, payload 1-80 packed exactly as the sender's binner does, "
+     "then Split at a drawn k: parts tile every chunk and file, payload <= size+10%, Split preserves parts and sizes; "
+     "non-trivial = (a) a push after the first pop and a multi-chunk file, (b) a file cut into >= 2 parts and >= 2 payloads",
+     [dict(pkg="queuex", test="TestC11Queue", world="W0", quick=16000, thorough=800000,
+           required_classes=["multi-chunk-file", "resumed-multi-range"]),
+      dict(pkg="payloadx", test="TestC11Pack", world="W0", quick=16000, thorough=800000,
+           required_classes=["file-in-several-parts", "split", "several-files-in-one-payload"])],
+     ["harness implementations of sts.Recovered and sts.Binnable (the sender's own are unexported; exercised end to end in the simulation checks)",
+      "sizes are tens of bytes; arithmetic near 2^53 (float64 math.Min in Bin.Add) is not explored"])
+
+prop("C13", "exploration",
+     "generated payloads of 1-8 parts over 1-5 in-memory files (slices at start/middle/end/whole, names with unicode, "
+     "spaces, ':' and both separators, rename and predecessor strings, nanosecond times), encoded with EncodeHeader+GetEncoder "
+     "through read buffers of 1..4096 bytes and file readers returning 1..n bytes, optional gzip level 0-9, decoded with "
+     "payload.NewDecoder through step readers; plus malformed streams (cut in header, cut in body, declared length short / "
+     "long by 1-12, garbled header byte); non-trivial = >= 2 parts from >= 2 files with a mid-file slice and a buffer smaller "
+     "than a part, or any malformed stream",
+     [dict(pkg="payloadx", test="TestC13RoundTrip", world="W0", quick=8000, thorough=400000,
+           required_classes=["mid-file-slice"]),
+      dict(pkg="payloadx", test="TestC13Malformed", world="W0", quick=8000, thorough=400000,
+           required_classes=["cut-in-header", "declared-short", "declared-long", "cut-in-body"])],
+     ["file contents avoid JSON whitespace so that an over-long declared header is always detectable",
+      "a hang is judged by a 3 s real-time bound on payload.NewDecoder",
+      "the HTTP leg (real client/server) is covered by the wire checks, not here"])
+
 # ---------------------------------------------------------------------------
 # texts for MANIFEST.json (tools/mkmanifest.py)
 
@@ -47,5 +75,18 @@ MANIFEST_TEXT = {
         note="Readiness is computed by the model from the pushes and pops (pending file present and not a lone young file "
              "under a last-file delay); file ages are hours away from the delay so wall-clock reads cannot flip a verdict."),
 }
+
+MANIFEST_TEXT["C11"] = dict(
+    technique="property-based testing (rapid): tiling invariants over generated chunk streams and payload packings; Split round trip",
+    text="Generated-input search with validity predicates: chunks/parts are non-empty, ascending, disjoint, within limits and "
+         "cover exactly the bytes to send; payloads stay within size+10%; Split(k) preserves the part list and byte counts.",
+    note="Queue and payload are driven through their exported API with harness-side Recovered/Binnable implementations; the "
+         "end-to-end 'every byte exactly once' clause is additionally observed at the transport in the simulation checks.")
+MANIFEST_TEXT["C13"] = dict(
+    technique="round-trip property testing (rapid) of encoder/decoder with generated payloads, buffer sizes and gzip levels; malformed-stream generation with a refusal oracle",
+    text="Round trip: decoded descriptors equal encoded ones field by field and each part reader yields exactly its bytes and "
+         "EOF at end-beg. Malformed streams must be refused (error) or, if accepted, never hand out a complete part with bytes "
+         "of another position; a decoder that does not return within 3 s is a violation.",
+    note="In-memory leg only in this unit; trusts the harness's Binnable and in-memory Readable.")
 
 NOT_CLAIMED = {}
